@@ -181,6 +181,18 @@ Proof.
 Qed.
 Print Assumptions C18_hsts_not_weakened_refuted.
 
+(* Observation (not a violation): on the repaired code an upstream's trailers named like protected
+   headers still reach the client, in both modes — as chunked TRAILER fields only; the response
+   header fields carry exactly the proxy's values. *)
+Theorem C18_trailers_are_not_headers : forall replace,
+  exists h, proxy_handle T H D_rep TD_rep (cfg_w replace) q_w (OForward [] None u_trailers2) = Resp 200 h /\
+    hget k_xfo h = match tbl_lookup k_xfo T with Some v => [VStr v] | None => [] end /\
+    hget hsts_k h = [VStr (snd H)] /\
+    proxy_trailers T H D_rep TD_rep (cfg_w replace) q_w (OForward [] None u_trailers2) k_xfo = [VStr (bs "ALLOWALL")] /\
+    proxy_trailers T H D_rep TD_rep (cfg_w replace) q_w (OForward [] None u_trailers2) hsts_k = [VStr (bs "max-age=0")].
+Proof. exact trailers_are_not_headers. Qed.
+Print Assumptions C18_trailers_are_not_headers.
+
 (* What is true today: HSTS is exactly the proxy's on every response the proxy produces itself
    and on forwarded responses whose upstream sends no such header or announced trailer. *)
 Theorem C18_hsts_not_weakened_partial : forall cfg q o,
